@@ -115,6 +115,8 @@ def check(run):
     simplecorr.explore(run, binp, 8000 if run.tier == "quick" else 160000)
     # the state machine itself without a base, every scheme but file (Model/ParseSpecial.lean, proved equal to Spec.parse)
     specialcorr.explore(run, binp, 12000 if run.tier == "quick" else 200000)
+    # ... and with a base (Model.ParseSpecial.parseWithBase, proved equal to Spec.parse with that base)
+    specialcorr.explore_base(run, binp, 16000 if run.tier == "quick" else 250000)
     for r in res[-3:]:
         run.sample(urlcorr.describe(r["case"]))
     run.oblige("corr:impl-vs-spec(parse)", True)
